@@ -175,6 +175,9 @@ pub assume_specification<T: core::cmp::Ord + core::marker::Destruct>[ core::cmp:
 pub assume_specification[ std::time::Duration::from_secs ](s: u64) -> (d: std::time::Duration)
     ensures dur_nanos(d) == s * 1000000000;
 
+/// ASSUMPTION: binding a socket and building an address from (ip, port) have no precondition (I/O errors are an `Err`)
+pub assume_specification<A: std::net::ToSocketAddrs>[ std::net::UdpSocket::bind::<A> ](a: A) -> (r: Result<std::net::UdpSocket, std::io::Error>);
+pub assume_specification<I: Into<std::net::IpAddr>>[ <std::net::SocketAddr as From<(I, u16)>>::from ](a: (I, u16)) -> (r: std::net::SocketAddr);
 pub assume_specification[ std::net::UdpSocket::local_addr ](s: &std::net::UdpSocket) -> (r: Result<std::net::SocketAddr, std::io::Error>);
 
 pub assume_specification<T>[ std::sync::mpsc::Sender::<T>::send ](s: &std::sync::mpsc::Sender<T>, t: T) -> (r: Result<(), std::sync::mpsc::SendError<T>>);
